@@ -968,10 +968,11 @@ def sym_call(f, *a, **kw):
         if m is not None:
             return m(*a, **kw)
         try:
-            if f in _PASS_NATIVE:
-                return f(*a, **kw)
+            native = f in _PASS_NATIVE
         except TypeError:
-            pass
+            native = False
+        if native:
+            return f(*a, **kw)
         if tf in (types.BuiltinFunctionType, _BUILTIN_METHOD, _CMETHOD, type, types.MethodDescriptorType,
                   types.WrapperDescriptorType, types.MethodWrapperType):
             recv = getattr(f, '__self__', None)
